@@ -576,7 +576,7 @@ pub fn run(run: &mut Run) {
     let nworkers = crate::pool::threads() as u64;
     let exe = std::env::current_exe().expect("current exe");
     let progress: Vec<AtomicU64> = (0..nworkers).map(|_| AtomicU64::new(u64::MAX)).collect();
-    let deadline = Duration::from_secs(if thorough { 10 } else { 6 });
+    let deadline = Duration::from_secs(if thorough { 15 } else { 10 });
     let mut st = Stats::new();
     let results: Vec<(Vec<serde_json::Value>, Vec<(u64, String)>, u64)> = std::thread::scope(|s| {
         let mut hs = Vec::new();
@@ -588,6 +588,7 @@ pub fn run(run: &mut Run) {
                 let mut reported: Vec<serde_json::Value> = Vec::new();
                 let mut crashes: Vec<(u64, String)> = Vec::new();
                 let mut done_cases = 0u64;
+                let mut unreproduced = 0;
                 let mut next = w;
                 while next < total {
                     if CRASHES.load(Ordering::Relaxed) >= CRASH_CAP {
@@ -726,10 +727,18 @@ pub fn run(run: &mut Run) {
                             next = i + nworkers;
                         }
                         None => {
-                            // could not reproduce: machinery problem, not a verdict
-                            crashes.push((last, format!("UNREPRODUCIBLE {}", died)));
-                            done_cases += (last - next) / nworkers + 1;
-                            next = last + nworkers * 70;
+                            // could not reproduce on single cases (an overloaded machine can starve a
+                            // worker past the deadline): resume from the stalled batch; only repeated
+                            // unreproducible stalls are a machinery problem
+                            unreproduced += 1;
+                            if unreproduced > 3 {
+                                crashes.push((last, format!("UNREPRODUCIBLE {}", died)));
+                                done_cases += (last - next) / nworkers + 1;
+                                next = last + nworkers * 70;
+                            } else {
+                                done_cases += (last - next) / nworkers;
+                                next = last;
+                            }
                         }
                     }
                 }
